@@ -42,7 +42,7 @@ PROPS = {
         ]),
     'C01': dict(
         file='Props/C01.v',
-        streams=[('c01-hist', 'tie'), ('c01-sched', 'tie')],
+        streams=[('c01-hist', 'tie'), ('c01-sched', 'tie'), ('c01-large', 'tie')],
         assumptions=['symbolic cryptography in the mint model: a C field is genuine iff it is the term CSig keyset amount secret (one-more unforgeability of BDHKE, collision resistance of hash_to_curve); the algebra itself is C10', 'each storage.MintDB call is atomic and durable once it returns (SQLite); PRIMARY KEY/UNIQUE as in the migrations', 'the Lightning backend is the scripted lightning.Client of the harness; real LND/CLN adapters are not executed']),
     'C02': dict(
         file='Props/C02.v',
@@ -54,7 +54,7 @@ PROPS = {
         assumptions=['symbolic cryptography in the mint model: a C field is genuine iff it is the term CSig keyset amount secret (one-more unforgeability of BDHKE, collision resistance of hash_to_curve); the algebra itself is C10', 'each storage.MintDB call is atomic and durable once it returns (SQLite); PRIMARY KEY/UNIQUE as in the migrations', 'the Lightning backend is the scripted lightning.Client of the harness; real LND/CLN adapters are not executed']),
     'C05': dict(
         file='Props/C05.v',
-        streams=[('c05-hist', 'tie'), ('c05-scripts', 'tie')],
+        streams=[('c05-hist', 'tie'), ('c05-scripts', 'tie'), ('c01-sched', 'tie')],
         assumptions=['symbolic cryptography in the mint model: a C field is genuine iff it is the term CSig keyset amount secret (one-more unforgeability of BDHKE, collision resistance of hash_to_curve); the algebra itself is C10', 'each storage.MintDB call is atomic and durable once it returns (SQLite); PRIMARY KEY/UNIQUE as in the migrations', 'the Lightning backend is the scripted lightning.Client of the harness; real LND/CLN adapters are not executed']),
     'C06': dict(
         file='Props/C06.v',
